@@ -42,7 +42,11 @@ def run(tier, seed):
     vlib.require_ok(kres, "MergeKeylessGen")
     kout = vlib.replay("mergekeyless", kscen, nshards=4, timeout=120)
     vlib.absorb_replay(v, kout, "mergekeyless", kscen, crash_sig=lambda sc, t: "merge/keyless/crash")
+    # two-repository behaviours of System2.tla (commit / fetch / push / pull / merge / prune through the real CLI)
+    from props import system2_common
+    sys2cov, _ = system2_common.run(v, PROP, tier, seed)
     cov = {
+        "system2_behaviours": sys2cov,
         "states": res.distinct, "transitions": res.generated,
         "traces_validated_against_impl": out.passed,
         "evaluations": out.total,
@@ -71,6 +75,9 @@ def run(tier, seed):
 def replay(path):
     with open(path) as f:
         doc = json.load(f)
+    if doc.get("engine") == "system2":
+        from props import system2_common
+        return system2_common.replay(PROP, path, doc)
     scen = os.path.join(vlib.sub("scn"), "one.ndjson")
     with open(scen, "w") as f:
         f.write(json.dumps(doc["scenario"]) + "\n")
